@@ -141,6 +141,22 @@ PROPS = {
                  "answered out of order; distinct by case hash."),
         "assumptions": ["type-confused responses (right id, wrong type) belong to C12", "a caller cancelled while its answer is in flight may return either its context error or its own response"],
     },
+    "C07": {
+        "level": "exploration",
+        "groups": [g("main", "c07", q=12, t=32, run="^Test(Regress|Storage|Conn)$", gomaxprocs=[4, 2, 1, 16])],
+        "timeout": {"quick": 600, "thorough": 3000},
+        "rule": ("generated: (storage, model-based) op sequences {store, remove, list, clear} over 2-4 stream ids and small sequence numbers on both "
+                 "storage flavours, sequentially (the model is checked for EVERY stream after EVERY op) and concurrently (one goroutine per stream: "
+                 "operations on different streams must commute); (connection) 1-4 bystander upstreams (QoS mix) writing marked points and 0-3 "
+                 "bystander downstreams reading chunks marked for them, while victim operations run on the same connection (open+close upstream/"
+                 "downstream, refused opens, metadata) and, in a third of the cases, one link failure with acks of trailing chunks withheld so that "
+                 "reliable and non-reliable upstreams resume side by side. Oracle: every bystander satisfies its single-stream oracle as if alone "
+                 "(all cut chunks arrive with its own content under its own alias, close totals, reads complete and in order), every ack result and "
+                 "every chunk delivered carries the receiving stream's own marker, sent storage empty per stream when all was acknowledged. "
+                 "Non-trivial = a clear/remove on one stream while another holds entries, concurrent storage goroutines, victims next to >= 2 "
+                 "bystanders, or an outage with reliable + non-reliable upstreams; distinct by case hash."),
+        "assumptions": ["a non-reliable upstream may lose what was in flight at a link failure; a reliable one may not", "the consumer keeps up (far below the 1024-item buffers)"],
+    },
     "C08": {
         "level": "fault_enumeration",
         "groups": [g("main", "c08", q=16, t=32, run="^Test(Regress|Enumerate|Prop)$", gomaxprocs=[4, 2, 4, 16])],
